@@ -1,7 +1,7 @@
 (* C08 -- Redefine yields a callable function over exactly the missing, permitted inputs. *)
 From ArgMapper Require Import Base Graph GraphAlg Types Args Resolver ResolverSpec Monitors Monitors2 ResolverStatements ResolverStatements2.
 From ArgMapper Require Import ResolverStatements3 ResolverStatements4.
-From ArgMapper.proofs Require Import C08Redefine C08Succeeds C08Callable C08NonVacuous FilterLaws FilterValue.
+From ArgMapper.proofs Require Import C08Redefine C08Succeeds C08Callable C08NonVacuous FilterLaws.
 
 (* On the domain of the property (no subtypes; the proofs do not even need
    the single-input and one-type-per-name restrictions) and for every tape:
@@ -54,34 +54,21 @@ Theorem C08_nonvacuous :
 Proof. exact C08_premises_satisfiable. Qed.
 Print Assumptions C08_nonvacuous.
 
-(* "Permitted" is decided by the filter combinators of filter.go; for every
-   universe, every type and filter lists of any length and nesting:
-   FilterOr(fs...) permits a type exactly when some member does (so
+(* "Permitted" is decided by a FilterFunc over the whole Value (name, type,
+   subtype): the combinators of filter.go plus the tests a caller-written
+   filter can make on Value.Name / Value.Subtype (FltName, FltSub).  For
+   every universe, every value and filter lists of any length and nesting:
+   FilterOr(fs...) permits a value exactly when some member does (so
    FilterOr() permits nothing), FilterAnd(fs...) exactly when every member
    does (so FilterAnd() -- and the nil filter of the model -- permits
    everything).  Further laws (flattening, absorption, insensitivity to
    order and repetition): proofs/FilterLaws.v. *)
-Theorem C08_filter_or : forall u fs t,
-  flt_ok u (FltOr fs) t = true <-> exists f, List.In f fs /\ flt_ok u f t = true.
+Theorem C08_filter_or : forall u fs n t s,
+  flt_okv u (FltOr fs) n t s = true <-> exists f, List.In f fs /\ flt_okv u f n t s = true.
 Proof. exact flt_or_spec. Qed.
 Print Assumptions C08_filter_or.
 
-Theorem C08_filter_and : forall u fs t,
-  flt_ok u (FltAnd fs) t = true <-> forall f, List.In f fs -> flt_ok u f t = true.
+Theorem C08_filter_and : forall u fs n t s,
+  flt_okv u (FltAnd fs) n t s = true <-> forall f, List.In f fs -> flt_okv u f n t s = true.
 Proof. exact flt_and_spec. Qed.
 Print Assumptions C08_filter_and.
-
-(* Scope of the C08 theorems, as a theorem: a FilterFunc of filter.go sees a
-   whole Value (name, type, subtype).  [vflt] is that wider class; the model's
-   filters embed in it conservatively and are exactly the filters that are
-   blind to name and subtype (the ones the library ships).  Filters that test
-   Value.Name or Subtype are not covered by the theorems above nor by the
-   correspondence (DESIGN.md section 10, seeded change C08_r5m1). *)
-Theorem C08_scope_conservative : forall u f n t s, vflt_ok u (embed f) n t s = flt_ok u f t.
-Proof. exact embed_conservative. Qed.
-Print Assumptions C08_scope_conservative.
-
-Theorem C08_scope_strict : forall u n0, n0 <> String.EmptyString ->
-  forall f, exists n t s, vflt_ok u (VName n0) n t s <> vflt_ok u (embed f) n t s.
-Proof. exact vname_not_embedded. Qed.
-Print Assumptions C08_scope_strict.
